@@ -2228,6 +2228,7 @@ func (self *LockDB) Lock(serverProtocol ServerProtocol, command *protocol.LockCo
 				return nil
 			}
 
+			lock.ackCount = 0xff
 			lockData := lockManager.GetLockData()
 			if command.Flag&protocol.LOCK_FLAG_CONTAINS_DATA != 0 {
 				lockManager.ProcessLockData(command, lock, false)
